@@ -5,7 +5,8 @@
    count, bystanders intact, structure and accounting intact, refill to the same capacity - is decided per explored
    history: real exhaustion with 0..5 blocks left and forced refusal of the j-th request of a call (checks/c08.py). *)
 From Coq Require Import ZArith List Bool.
-From ADF Require Import CPrelude Generated.Layout Generated.Leaf Model.Bitmap Proofs.BitmapP.
+From ADF Require Import CPrelude Generated.Layout Generated.Leaf Model.Bitmap Proofs.BitmapP Spec.FsSpec Model.FileIO Proofs.FileIOL Proofs.FileIOP.
+Import ListNotations.
 Local Open Scope Z_scope.
 
 Theorem C08_refusal_is_exhaustion : forall b root last want, 2 < root <= last ->
@@ -17,5 +18,22 @@ Theorem C08_refusal_changes_nothing : forall b root last want,
   scan (Z.to_nat last + 2) b root last want root nil = None -> get_free_blocks b root last want = None.
 Proof. intros b root last want H. unfold get_free_blocks. rewrite H. reflexivity. Qed.
 
+(* on the file handle model (Model/FileIO.v, tied to adf_file.c by the call-level correspondence): a write that needs a new block
+   and is refused one returns 0 and leaves the handle and the volume exactly as they were *)
+Theorem C08_refused_write_changes_nothing : forall bs ofs, 0 < bs -> forall s data al, mw s = true -> pos s mod bs = 0 -> pos s = fsize s -> data <> [] ->
+  fio_write bs ofs nobad s data (None :: al) = (s, 0, al) /\ fio_write bs ofs nobad s data [] = (s, 0, []).
+Proof. exact fio_write_refused. Qed.
+
+(* ... and a write that runs out of blocks part-way reports a short count w that is exact: the file now holds the first w bytes of
+   the data at the position and is otherwise unchanged, the state is coherent again (everything stored earlier stays readable:
+   C01_handle_read applies to it), the position is advanced by w; w < |data| only after a refusal *)
+Theorem C08_short_write_is_exact : forall bs ofs key, 0 < bs -> forall s L E ct data al, Inv bs ofs key s L E -> Repr bs s L ct -> mw s = true -> al_ok key L E al ->
+  exists s' w al' L' E', fio_write bs ofs nobad s data al = (s', w, al') /\ Inv bs ofs key s' L' E'
+    /\ Repr bs s' L' (splice ct (pos s) (firstn (Z.to_nat w) data)) /\ pos s' = pos s + w /\ 0 <= w <= len data /\ mw s' = true /\ mr s' = mr s
+    /\ (w = len data -> al_ok key L' E' al') /\ (w < len data -> exists r, al = r ++ None :: al' \/ (al' = [] /\ True)).
+Proof. exact fio_write_ok. Qed.
+
 Print Assumptions C08_refusal_is_exhaustion.
+Print Assumptions C08_refused_write_changes_nothing.
+Print Assumptions C08_short_write_is_exact.
 Print Assumptions C08_refusal_changes_nothing.
